@@ -124,7 +124,7 @@ def run(ctx):
              "on a fresh vault with 0-12 plans (thorough: up to 30), interleaved with Exists probes, a partial battery in the middle and a full "
              "battery at the end (Exists of every id incl. deleted / never created / nil; all 7 filter-kind combinations single- and multi-valued "
              "incl. unknown ids, absent groups, repeated values, status 150; Running; all statuses; all ids; the empty filter; List limits "
-             "-1,0,1,n-1,n,n+1). evaluations = observations judged (Exists + Search + List + parsed cosmos Search and List query texts); distinct = distinct "
+             "-1,0,1,n-1,n,n+1; one ByIDs list of 501 / 600 / 1100 entries per history, never-created ids with the live ids planted around the multiples of 500 oldest first, alone or with group / status filters). evaluations = observations judged (Exists + Search + List + parsed cosmos Search and List query texts); distinct = distinct "
              "(history, observations) by hash; non-trivial = at least 2 live plans at the end and more than 10 steps",
         samples=[dict(id=c["id"], backend=c["kind"], dist={k: v for k, v in c["dist"].items() if k != "hist"},
                       first_steps=c["observed"][:6], last_steps=c["observed"][-3:]) for c in live[3:6]],
@@ -137,6 +137,7 @@ def run(ctx):
             tied_plans_at_end=fw.histogram(c["dist"]["tied_plans"] for c in live),
             filter_kind=merge_hist(live, "filter:"),
             filter_values=merge_hist(live, "filter-values:"),
+            long_id_filters=merge_hist(live, "long-filter:"),
             search_result_sizes=merge_hist(live, "search-results:"),
             list_limit=merge_hist(live, "limit:"),
             list_skipped=merge_hist(live, "list:"),
